@@ -221,4 +221,65 @@ example : ∃ vs cs, assemble (1 / 100000000 : ℚ)
   refine ⟨_, _, ?_, rfl, rfl⟩
   decide +kernel
 
+/-! ## statements added after the model-mutant round (each pins a detail that no earlier theorem depended on) -/
+
+/-- `p1` within the threshold of the LAST vertex alone reverses the piece, whatever `p2` is (the other endpoint may be the
+ideal point at infinity, whose NaN coordinates never pass a `<` test): the two tests are joined by `or` -/
+theorem orient_reverses_of_p1_last (τ2 : K) (pc : Piece K) (f l : K × K)
+    (hf : pc.verts.head? = some f) (hl : pc.verts.getLast? = some l)
+    (h : near τ2 pc.p1 l = true) : orient τ2 pc = some pc.verts.reverse := by
+  unfold orient; rw [hf, hl]; simp [h]
+
+/-- `p2` within the threshold of the FIRST vertex alone reverses the piece, whatever `p1` is -/
+theorem orient_reverses_of_p2_first (τ2 : K) (pc : Piece K) (f l : K × K)
+    (hf : pc.verts.head? = some f) (hl : pc.verts.getLast? = some l)
+    (h : near τ2 pc.p2 f = true) : orient τ2 pc = some pc.verts.reverse := by
+  unfold orient; rw [hf, hl]; simp [h]
+
+/-- a FINITE endpoint left of `left` or right of `right` is treated as the point at infinity: the segment starts at the
+other (on-screen) endpoint and goes straight up off-screen — for either position of the off-screen endpoint -/
+theorem vertical_segment_offscreen (left right up x0 y0 x1 y1 : K) (h1 : left ≤ x1 ∧ x1 ≤ right)
+    (h0 : x0 < left ∨ right < x0) :
+    verticalSegment left right up (some x0, y0) (some x1, y1) = ((some x1, y1), (some x1, up)) ∧
+    verticalSegment left right up (some x1, y1) (some x0, y0) = ((some x1, y1), (some x1, up)) := by
+  unfold verticalSegment
+  rcases h0 with h0 | h0 <;> simp [h0, not_lt.2 h1.1, not_lt.2 h1.2]
+
+/-- the assembled path has exactly one code per vertex (matplotlib's `Path` requires it), as soon as every piece does -/
+theorem assembleAux_lengths (τ2 : K) : ∀ (first : Bool) (pcs : List (Piece K)) (vs : List (K × K)) (cs : List Code),
+    assembleAux τ2 first pcs = some (vs, cs) → (∀ pc ∈ pcs, pc.codes.length = pc.verts.length) →
+    cs.length = vs.length := by
+  intro first pcs
+  induction pcs generalizing first with
+  | nil => intro vs cs h _; simp [assembleAux] at h; rw [h.1, h.2]; rfl
+  | cons pc rest ih =>
+    intro vs cs h hlen
+    unfold assembleAux at h
+    cases ho : orient τ2 pc with
+    | none => rw [ho] at h; simp at h
+    | some v =>
+      cases hr : assembleAux τ2 false rest with
+      | none => rw [ho, hr] at h; simp at h
+      | some r =>
+        obtain ⟨vs', cs'⟩ := r
+        rw [ho, hr] at h
+        simp only [Option.some.injEq, Prod.mk.injEq] at h
+        have ih' := ih false vs' cs' hr (fun q hq => hlen q (List.mem_cons_of_mem _ hq))
+        have hv : v.length = pc.verts.length := by
+          unfold orient at ho
+          split at ho
+          · simp only [Option.some.injEq] at ho
+            rw [← ho]; split_ifs <;> simp
+          · cases ho
+        have hc : (recode first pc.codes).length = pc.codes.length := by
+          unfold recode
+          split_ifs
+          · rfl
+          · cases pc.codes <;> simp
+        rw [← h.1, ← h.2, List.length_append, List.length_append, hc, hv, ih', hlen pc (List.mem_cons_self ..)]
+
+theorem assemble_lengths (τ2 : K) (pcs : List (Piece K)) (vs : List (K × K)) (cs : List Code)
+    (h : assemble τ2 pcs = some (vs, cs)) (hlen : ∀ pc ∈ pcs, pc.codes.length = pc.verts.length) :
+    cs.length = vs.length := assembleAux_lengths τ2 true pcs vs cs h hlen
+
 end GT.C19
